@@ -1,6 +1,7 @@
 package main
 
 import (
+	"strconv"
 	"fmt"
 	"go/types"
 	"strings"
@@ -495,6 +496,14 @@ func (x *Exec) ormWrite(st *State, fr *frame, t *Table, op string, rowPtr Val, k
 		}
 		G := s.comp(st, g.Comp)
 		okey, oterm := x.ghostTerm(st, g, x.storedFields(st, t, key))
+		if g.Term != nil && g.Term.Atom != "" && len(g.Term.List) == 0 {
+			if c, err := strconv.ParseFloat(g.Term.Atom, 64); err == nil && c > 0 {
+				// counting sum (constant positive summand): a group that has a row counts at least that
+				// row (lemma lsum_ge_single of spec/lean/LSum.lean: a sum of non-negative terms is at
+				// least any one of them), instantiated at the row this operation touches
+				st.assume(implies(has, fmt.Sprintf("(>= (select %s %s) %s)", G, okey, oterm)))
+			}
+		}
 		G1 := ite(has, fmt.Sprintf("(store %s %s (- (select %s %s) %s))", G, okey, G, okey, oterm), G)
 		if op == "Delete" {
 			s.setComp(st, g.Comp, G1)
